@@ -75,9 +75,9 @@ def corpus(version, tier):
         for sub in (0, 1, 2, 3, 4, 5):
             for p in hexes:
                 add(f"stream/{sub}", f"{n};255;4;0;{sub};{p}")
-        ints = ["", "0", "1", "57", " 7", "-1", "+5", "٣", "abc", "x" * 400, "100", "254", "255", "1e3", "99999999999999999999"]
+        ints = ["", "0", "1", "57", " 7", "-1", "+5", "٣", "abc", "x" * 400, "100", "254", "255", "1e3", "99999999999999999999", "inf", "-Infinity", "1e999", "nan", "87.0"]
         if tier != "thorough":
-            ints = ["", "0", "57", " 7", "-1", "٣", "abc", "x" * 400, "255"]
+            ints = ["", "0", "57", " 7", "-1", "٣", "abc", "x" * 400, "255", "inf", "1e999", "nan"]
         internal_subs = [0, 1, 2, 3, 6, 9, 11, 12, 13, 14]
         if version >= "2.0":
             internal_subs += [18, 19, 20, 21, 22, 24]
@@ -96,7 +96,7 @@ def corpus(version, tier):
             for p in ["", "d", "\U0001d11e", "x" * 400]:
                 add("presentation/child", f"{n};{c};0;0;3;{p}")
                 add("presentation/child", f"{n};{c};0;0;23;{p}")
-            for vt, vals in [(2, ["0", "1"]), (0, ["", "21.5", "abc", "x" * 400]), (22, ["Min", "1", "Auto"]), (24, ["", "v"]), (47, ["txt"]), (3, ["0", "100", " 5"])]:
+            for vt, vals in [(2, ["0", "1"]), (0, ["", "21.5", "abc", "x" * 400]), (22, ["Min", "1", "Auto"]), (24, ["", "v"]), (47, ["txt"]), (3, ["0", "100", " 5", "inf", "1e999"])]:
                 for val in vals:
                     add("set", f"{n};{c};1;0;{vt};{val}")
                     add("set", f"{n};{c};1;1;{vt};{val}")
@@ -162,6 +162,8 @@ class C01Spec(explore.Spec):
         roots.append(tuple(alpha.rx(t[n]) for n in ("PAo", "CA0", "SA0")) + (("fw", 1, 1, 1, "F1"), alpha.rx(t["FCA"])))
         # OTA session fetching
         roots.append(tuple(alpha.rx(t[n]) for n in ("PA", "CA0")) + (("fw", 1, 1, 1, "F1"), alpha.rx(t["FCA"]), alpha.rx(t["FRA0"])))
+        # the id space is used up (node 254 known) and an id request has already been turned down
+        roots.append((alpha.rx(f"254;255;0;0;17;{v}"), alpha.rx(t["IDR"])))
         return roots
 
     def new_monitor(self, cfg):
